@@ -16,10 +16,21 @@ CONSTANTS
   AddrClass = "%(addr)s"
   Idioms = %(idioms)s
   Features <- %(feat)s
+  HostSigs <- HostPool
 INVARIANTS FramesNested %(emit)s
 CHECK_DEADLOCK FALSE
 """
 SIGS = [("P_ii", "R_i"), ("P_fd", "R_d"), ("P_v", "R_v"), ("P_0", "R_0"), ("P_ii", "R_li")]
+
+
+def I(op, a="", b=""):
+    return {"op": op, "a": a, "b": b}
+
+
+# hand-written bodies for inputs a listed finding is keyed by (so that the finding is exercised in every run)
+PROBES = [
+    {"bodies": [{"params": [], "results": [], "bad": "", "code": [I("i32.const", 65537), I("i32.atomic.load", "amem4"), I("drop"), I("end")]}], "seed": 1},
+]
 
 
 def cfg(target, p, r, ops, inv="FALSE", emit="EmitBody", addr="addr", idioms="TRUE", feat="AllFeatures"):
@@ -81,7 +92,7 @@ def run(ctx):
             rest = [b for b in uniq if not any(i["a"] == "edge" for i in b["code"])]
             uniq = edge + (rnd.sample(rest, 1800) if len(rest) > 1800 else rest)
         ctx.extra["programs"] = len(uniq)
-        items = modules(uniq, rnd)
+        items = modules(uniq, rnd) + PROBES
     results = ctx.replay("wexec-diff", items, timeout=3400)
     for it, r in zip(items, results):
         for f in r.get("fails", []):
@@ -96,4 +107,4 @@ def run(ctx):
     for it in items[:: max(1, len(items) // 3)][:2]:
         ctx.sample({"function": [i["op"] for i in it["bodies"][0]["code"]][:60]})
     ctx.assumptions += ["the other engine is the oracle (the property is an agreement statement); NaN payloads are compared as 'both NaN'; calls that "
-                        "exhaust the stack on either engine are not compared", "atomics are not generated"]
+                        "exhaust the stack on either engine are not compared", "memory.atomic.wait32/64 are not generated (they block); atomics run single-threaded"]
